@@ -132,7 +132,9 @@ func (c *c05Case) signedPost(n *spsim.Node, key *keys.Pair, o spsim.XMLSignOpts)
 
 func (c *c05Case) unsignedXML(n *spsim.Node) string { return c.Req.Style.Finish(n.Clone(), c.rng) }
 
-func (c *c05Case) setRedirect(m *spsim.RedirectMsg) { c.Method, c.Query, c.Body = "GET", m.RawQuery(), "" }
+func (c *c05Case) setRedirect(m *spsim.RedirectMsg) {
+	c.Method, c.Query, c.Body = "GET", m.RawQuery(), ""
+}
 func (c *c05Case) setPost(x string, kv ...string) {
 	args := []string{"SAMLRequest", spsim.B64([]byte(x))}
 	if c.HasRelay {
